@@ -37,7 +37,7 @@ ASSUMPTIONS = [
 TOP = 0xFFFFF000
 OPS = ['set', 'set', 'get', 'set_rmode', 'set_rmode', 'get_rmode', 'set_spsr', 'get_spsr', 'mov_imm', 'mov_reg', 'mov_reg', 'msr_spsr', 'mrs_spsr',
        'cps', 'cps', 'cps', 'msr_cpsr_c', 'entry_api', 'entry_api', 'svc', 'udf', 'irq', 'fiq', 'ret', 'ret', 'stm_user', 'ldm_user', 'srs', 'smc',
-       'sec_state', 'sec_state']
+       'sec_state', 'sec_state', 'bystander', 'bystander']
 
 
 def plan(tier, seed):
@@ -81,8 +81,17 @@ def gen_bank(rng):
               'imm': rng.getrandbits(8), 'kind': rng.choice(['svc', 'und', 'dabt', 'irq', 'fiq', 'smc', 'hyptrap']), 'list': rng.getrandbits(15) | 1 << rng.randrange(15),
               'how': rng.choice(['subs', 'movs', 'eret', 'ldm']), 'ns': rng.getrandbits(1)}
         ops.append(op)
+    if not virt and rng.random() < 0.5:
+        # an instruction FETCH that aborts (MPU switched on for one step with no region and no background region), placed directly behind operations
+        # that wrote banked registers or changed mode: the abort entry writes LR_abt and SPSR_abt - and nothing an earlier instruction left behind
+        for i in range(len(ops) - 1, -1, -1):
+            if ops[i]['op'] in ('ret', 'ldm_user', 'srs', 'mov_reg', 'cps', 'msr_cpsr_c', 'set_rmode') and rng.random() < 0.3:
+                ops.insert(i + 1, dict(ops[i], op='fetch_abort'))
     core = {'config': cfg, 'devices': devices, 'regs': regs, 'words': [], 'force': None, 'no_poke': []}
     case = {'scenario': 'bank_walk', 'cores': [core], 'ops': ops, 'thumb': thumb, 'events': [], 'max_ticks': 10 ** 9, 'stop_at_done': False}
+    # a BYSTANDER instance: a second processor with the same configuration file, alive next to the one under test (built before it, or in the middle
+    # of the history), whose banks are written through its own API between the operations of the history.  A register file belongs to one processor
+    case['bystander'] = rng.choice([None, None, 'before', 'later'])
     if rng.random() < 0.35:
         # a PREDECESSOR instance: another processor, built from another configuration (other extensions), is created, has every bank of every mode
         # number read and the legal ones written through the API, and is dropped before the instance under test is even constructed.  Which
@@ -184,6 +193,9 @@ run_predecessor = M.run_predecessor
 class Walk:
     def __init__(self, case):
         self.case = dict(case, cores=[dict(case['cores'][0], words=[])])           # (a 'predecessor' of the case is run by the board before it builds the instance)
+        self.by = None
+        if case.get('bystander') == 'before':
+            self.by = M.new_arm({'config': case['cores'][0].get('config'), 'devices': [], 'reset': True})
         self.b = StreamBoard(self.case, [])
         self.arm = self.b.cores[0].arm
         self.r = self.arm.registers
@@ -285,7 +297,34 @@ class Walk:
             # NSACR.RFR=1 makes the FIQ bank UNPREDICTABLE territory in Non-secure state: the (Secure) firmware of these histories only keeps it set
             # while it runs in Secure state, where banking is unaffected by it
             r.nsacr.value &= ~(1 << 19)
-        if k == 'sec_state':
+        if k == 'fetch_abort':
+            if self.cfg.get('memory_system_architecture') != 'PMSA' or any(x.value & 1 for x in r.drsrs):
+                return 'skip'
+            sct = r.sctlr.value
+            r.sctlr.m, r.sctlr.br = 1, 0
+            self.b.count('fault.fetch-abort')
+            ok = self.exec_word(T.NOP if self.thumb else A.NOP)
+            r.sctlr.value = (r.sctlr.value & ~(1 | 1 << 17)) | (sct & (1 | 1 << 17))
+            self.thumb = (r.cpsr.value >> 5) & 1
+            if not ok:
+                return 'dead'
+        elif k == 'bystander':
+            if not self.case.get('bystander'):
+                return 'skip'
+            if self.by is None:
+                self.by = M.new_arm({'config': self.case['cores'][0].get('config'), 'devices': [], 'reset': True})
+                self.b.count('fault.instance-create')
+            br = self.by.registers
+            bm = tgt if tgt in self.legal and not (tgt == BK.HYP and not self.virt) else BK.SVC
+            br.cpsr.value = (br.cpsr.value & ~0x1F) | bm
+            if bm == BK.HYP:
+                br.scr.value |= 1
+            br.set(n, op['v'])
+            br.set_rmode(mm, BK.SVC if bm in (BK.MON, BK.HYP) else bm, op['v'] ^ 0xFFFFFFFF)
+            if bm not in (BK.USR, BK.SYS):
+                br.set_spsr(op['v'] ^ 0x5A5A5A5A)
+            self.b.count('fault.bystander-write')
+        elif k == 'sec_state':
             # Monitor mode (always Secure) rewrites SCR.NS and NSACR.RFR: no effect on which physical register a (register, mode) pair names
             if not self.sec or cur != BK.MON:
                 return 'skip'
